@@ -1,5 +1,6 @@
 """C01 - StatsD lines aggregate to exactly the predicted Prometheus series."""
 import e2e_engine as E2E
+import gen_line as GL
 import gen_mapper as GM
 import gen_pipeline as GP
 import pipeline_check as PC
@@ -12,6 +13,13 @@ def gen_case(rnd):
     ops = [GM.load_op(cfg)]
     for _ in range(rnd.randint(300, 600) if big else rnd.randint(5, 40)):
         ops.append(PE.I(GP.gen_line(rnd, cfg, safe=True, odd_p=0.05)))
+        if rnd.random() < 0.03:
+            # two label sets that differ only in where a would-be separator character falls
+            sep = rnd.choice(GL.SEPARATORS)
+            nm = GP.name_for(rnd, cfg)
+            ty = rnd.choice([b"c", b"g", b"ms"])
+            ops.append(PE.I(nm + b":3|" + ty + b"|#a:p" + sep + b"q,bc:r"))
+            ops.append(PE.I(nm + b":4|" + ty + b"|#a:p,bc:q" + sep + b"r"))
         if rnd.random() < 0.08:
             ops.append("G")
     ops.append("G")
